@@ -122,6 +122,19 @@ impl MatchedArg {
             .push(raw_val);
     }
 
+    /// Forget every occurrence whose value is `raw_val` (a group forgetting a member)
+    pub(crate) fn remove_val(&mut self, raw_val: &OsStr) {
+        let mut i = 0;
+        while i < self.raw_vals.len() {
+            if self.raw_vals[i].iter().any(|v| v == raw_val) {
+                self.raw_vals.remove(i);
+                self.vals.remove(i);
+            } else {
+                i += 1;
+            }
+        }
+    }
+
     pub(crate) fn num_vals(&self) -> usize {
         self.vals.iter().map(|v| v.len()).sum()
     }
